@@ -706,26 +706,30 @@ theorem isEmpty_iff {rs : Ranges} (hi : RInv rs) : isEmpty rs = true ↔ rs = []
     intro h; omega
 
 /-- `from_vec` accepts every `Inv` vector unchanged -/
-theorem fromVecGo_of_inv : ∀ {rs : Ranges} (prev : Option Range), RInv rs →
-    (∀ p, prev = some p → ∀ x ∈ rs, p.2 < x.1) → fromVecGo prev rs = .ok ()
-  | [], _, _, _ => rfl
-  | r :: rs, prev, hi, hp => by
-    obtain ⟨h1, hv, hrs⟩ := inv_cons.1 hi
-    have hgo : fromVecGo (some r) rs = .ok () := by
-      apply fromVecGo_of_inv (some r) hrs
-      intro p hp' x hx
-      cases hp'
-      have := h1 x hx
-      omega
-    cases prev with
-    | none => simp [fromVecGo, validate_ok hv.valid, hgo]
-    | some p =>
-      have := hp p rfl r (by simp)
-      have hn : ¬ r.1 ≤ p.2 := by omega
-      simp [fromVecGo, validate_ok hv.valid, hgo, hn]
+theorem fromVecMerge_of_inv : ∀ {rs : Ranges} (acc : Ranges), RInv (acc.reverse ++ rs) →
+    fromVecMerge acc rs = .ok (acc.reverse ++ rs)
+  | [], acc, _ => by simp [fromVecMerge]
+  | r :: rs, acc, hi => by
+    have hv : ValidR r := inv_validR hi (by simp)
+    have hi' : RInv ((r :: acc).reverse ++ rs) := by
+      simpa [List.append_assoc] using hi
+    have ih := fromVecMerge_of_inv (r :: acc) hi'
+    cases acc with
+    | nil => simpa [fromVecMerge, validate_ok hv.valid] using ih
+    | cons prev t =>
+      have hgap : prev.2 + 1 < r.1 := by
+        have h1 := (inv_append.1 hi).2.2 prev (by simp) r (by simp)
+        exact h1
+      have hvv := hv
+      unfold ValidR at hvv
+      have h1 : ¬ r.1 ≤ prev.2 := by omega
+      have h2 : prev.2 + 1 ≤ U64_MAX := by omega
+      have h3 : ¬ prev.2 + 1 = r.1 := by omega
+      simp only [fromVecMerge, validate_ok hv.valid, ok_bind, h1, ↓reduceIte, addU64, h2, beq_iff_eq, h3]
+      simpa [List.append_assoc] using ih
 
 theorem fromVec_of_inv {rs : Ranges} (hi : RInv rs) : fromVec rs = .ok rs := by
-  simp [fromVec, fromVecGo_of_inv none hi (by simp)]
+  simpa [fromVec] using fromVecMerge_of_inv (rs := rs) [] (by simpa using hi)
 
 /-! ### the decidable invariant -/
 
